@@ -4,6 +4,7 @@ package main
 // reach. Sound over-approximation; CHA for interface calls; closures followed through MakeClosure.
 
 import (
+	"go/token"
 	"fmt"
 	"go/types"
 	"sort"
@@ -438,6 +439,10 @@ func (ef *Effects) analyze(fn *ssa.Function) {
 				ef.storeTargets(fn, i.Addr, d)
 			case *ssa.MapUpdate:
 				ef.mapHeapNames(i.Map.Type().Underlying().(*types.Map), d)
+			case *ssa.UnOp:
+				if i.Op == token.ARROW {
+					d["G$recvtotal"] = true // channel receive: ghost receive counter
+				}
 			case *ssa.Send:
 				d["G$sent"] = true
 				d["G$sentnil"] = true
@@ -517,6 +522,15 @@ func (ef *Effects) callSite(fn *ssa.Function, cc *ssa.CallCommon, d map[string]b
 							d[k] = true
 						}
 						return
+					}
+				}
+			}
+			if par, ok := cc.Value.(*ssa.Parameter); ok {
+				if con := ef.eng.contracts[funcKey(fn)]; con != nil {
+					for _, pn := range con.CallbackPure {
+						if pn == par.Name() {
+							return // assumed pure (A-user)
+						}
 					}
 				}
 			}
@@ -672,6 +686,10 @@ func (ef *Effects) loopWrites(fn *ssa.Function, li *loopInfo) map[string]bool {
 				ef.storeTargets(fn, i.Addr, d)
 			case *ssa.MapUpdate:
 				ef.mapHeapNames(i.Map.Type().Underlying().(*types.Map), d)
+			case *ssa.UnOp:
+				if i.Op == token.ARROW {
+					d["G$recvtotal"] = true // channel receive: ghost receive counter
+				}
 			case *ssa.Send:
 				d["G$sent"] = true
 				d["G$sentnil"] = true
